@@ -66,6 +66,9 @@ def run_script(sc):
                 elif kind == 'nest':
                     target = (env.timeout(st[1], value=st[1] + 5) | env.timeout(st[2], value=st[2] + 5)) \
                         & env.timeout(st[3], value=st[3] + 5)
+                elif kind == 'nest2':
+                    target = (env.timeout(st[1], value=st[1] + 5) & env.timeout(st[2], value=st[2] + 5)) \
+                        | env.timeout(st[3], value=st[3] + 5)
                 elif kind == 'proc':
                     target = procs[st[1]]
                 elif kind == 'native':
@@ -102,7 +105,7 @@ def random_script(rng, np_=3, ns=3):
     """scripts beyond the enumerated bound: 3 processes x 3 steps, nested conditions, several interrupts"""
     def step(i, n):
         others = [k for k in range(1, n + 1) if k != i]
-        kinds = ['to', 'to', 'wait', 'succ', 'fail', 'all', 'any', 'nest', 'native']
+        kinds = ['to', 'to', 'wait', 'succ', 'fail', 'all', 'any', 'nest', 'nest2', 'native']
         if others:
             kinds += ['proc', 'intr', 'intr']
         k = rng.choice(kinds)
@@ -121,6 +124,9 @@ def random_script(rng, np_=3, ns=3):
             return ['any', rng.choice([1, 2]), rng.choice([1, 2])]
         if k == 'nest':
             return ['nest', rng.choice([1, 2, 3]), rng.choice([1, 2, 3]), rng.choice([1, 2, 3])]
+        if k == 'nest2':
+            a, b, c = rng.sample([1, 2, 3, 4], 3)       # distinct dates: no ties inside one time step
+            return ['nest2', a, b, c]
         if k == 'native':
             return ['native', 1]
         if k == 'proc':
